@@ -122,7 +122,13 @@ fn gen_dir(rng: &mut Rng, big: bool, quick: bool) -> Files {
     let dirs = ["", "sub/", "sub/deep/", "lib/"];
     for i in 0..nfiles {
         let d = rng.pick(&dirs);
-        let name = format!("{d}{}_{i}.lua", rng.pick(NAMES));
+        let mut name = format!("{d}{}_{i}.lua", rng.pick(NAMES));
+        if i == 1 && rng.chance(1, 3) {
+            // a file name of exactly 255 bytes: no sibling with a longer name (a temporary file) can be created
+            // next to it, so whatever the tool does instead must still be all-or-nothing
+            let stem = format!("{}_{i}_", rng.pick(NAMES));
+            name = format!("{d}{stem}{}.lua", "n".repeat(255 - stem.len() - 4));
+        }
         let stmts = if big && i == 0 { rng.range(2000, 6000) } else { rng.pick(&[1usize, 3, 8, 20, 60, 200]) };
         let mut text = messy_lua(rng, stmts);
         if rng.chance(1, 6) {
